@@ -8,16 +8,21 @@ Local Open Scope N_scope.
 
 (* a slot: glyph, advance.x, shift; and for positioning passes the attachment: parent and children as stream indices (the
    stream has a fixed length there: positioning passes may neither insert nor delete), attach point and with point *)
-Record slot := mkslot0 { s_gid : N; s_adv : Z; s_shx : Z; s_shy : Z; s_par : option nat; s_kids : list nat; s_atx : Z; s_aty : Z; s_wx : Z; s_wy : Z }.
-Definition mkslot (g : N) (a sx : Z) : slot := mkslot0 g a sx 0 None [] 0 0 0 0.
-Definition set_gid_adv (s : slot) (g : N) (a : Z) : slot := mkslot0 g a (s_shx s) (s_shy s) (s_par s) (s_kids s) (s_atx s) (s_aty s) (s_wx s) (s_wy s).
+Record slot := mkslot0 { s_gid : N; s_adv : Z; s_shx : Z; s_shy : Z; s_par : option nat; s_kids : list nat; s_atx : Z; s_aty : Z; s_wx : Z; s_wy : Z; s_user : list Z }.
+(* s_user: the user-defined slot attributes (Silf numUser of them; two in the compiled fonts) *)
+Definition mkslot (g : N) (a sx : Z) : slot := mkslot0 g a sx 0 None [] 0 0 0 0 [0; 0]%Z.
+Definition set_gid_adv (s : slot) (g : N) (a : Z) : slot := mkslot0 g a (s_shx s) (s_shy s) (s_par s) (s_kids s) (s_atx s) (s_aty s) (s_wx s) (s_wy s) (s_user s).
 Definition set_adv (s : slot) (a : Z) : slot := set_gid_adv s (s_gid s) a.
-Definition set_shx (s : slot) (v : Z) : slot := mkslot0 (s_gid s) (s_adv s) v (s_shy s) (s_par s) (s_kids s) (s_atx s) (s_aty s) (s_wx s) (s_wy s).
-Definition set_shy (s : slot) (v : Z) : slot := mkslot0 (s_gid s) (s_adv s) (s_shx s) v (s_par s) (s_kids s) (s_atx s) (s_aty s) (s_wx s) (s_wy s).
-Definition set_att (s : slot) (x y : Z) : slot := mkslot0 (s_gid s) (s_adv s) (s_shx s) (s_shy s) (s_par s) (s_kids s) x y (s_wx s) (s_wy s).
-Definition set_with (s : slot) (x y : Z) : slot := mkslot0 (s_gid s) (s_adv s) (s_shx s) (s_shy s) (s_par s) (s_kids s) (s_atx s) (s_aty s) x y.
-Definition set_par (s : slot) (p : option nat) : slot := mkslot0 (s_gid s) (s_adv s) (s_shx s) (s_shy s) p (s_kids s) (s_atx s) (s_aty s) (s_wx s) (s_wy s).
-Definition set_kids (s : slot) (k : list nat) : slot := mkslot0 (s_gid s) (s_adv s) (s_shx s) (s_shy s) (s_par s) k (s_atx s) (s_aty s) (s_wx s) (s_wy s).
+Definition set_shx (s : slot) (v : Z) : slot := mkslot0 (s_gid s) (s_adv s) v (s_shy s) (s_par s) (s_kids s) (s_atx s) (s_aty s) (s_wx s) (s_wy s) (s_user s).
+Definition set_shy (s : slot) (v : Z) : slot := mkslot0 (s_gid s) (s_adv s) (s_shx s) v (s_par s) (s_kids s) (s_atx s) (s_aty s) (s_wx s) (s_wy s) (s_user s).
+Definition set_att (s : slot) (x y : Z) : slot := mkslot0 (s_gid s) (s_adv s) (s_shx s) (s_shy s) (s_par s) (s_kids s) x y (s_wx s) (s_wy s) (s_user s).
+Definition set_with (s : slot) (x y : Z) : slot := mkslot0 (s_gid s) (s_adv s) (s_shx s) (s_shy s) (s_par s) (s_kids s) (s_atx s) (s_aty s) x y (s_user s).
+Definition set_par (s : slot) (p : option nat) : slot := mkslot0 (s_gid s) (s_adv s) (s_shx s) (s_shy s) p (s_kids s) (s_atx s) (s_aty s) (s_wx s) (s_wy s) (s_user s).
+Fixpoint set_nthz (l : list Z) (k : nat) (v : Z) : list Z := match l, k with [], _ => [] | _ :: r, O => v :: r | x :: r, S j => x :: set_nthz r j v end.
+Definition set_user (s : slot) (k : nat) (v : Z) : slot := mkslot0 (s_gid s) (s_adv s) (s_shx s) (s_shy s) (s_par s) (s_kids s) (s_atx s) (s_aty s) (s_wx s) (s_wy s) (set_nthz (s_user s) k v).
+(* put_copy: everything of the source slot except its place in the stream and its attachment links *)
+Definition copy_of (src cur : slot) : slot := mkslot0 (s_gid src) (s_adv src) (s_shx src) (s_shy src) (s_par cur) (s_kids cur) (s_atx src) (s_aty src) (s_wx src) (s_wy src) (s_user src).
+Definition set_kids (s : slot) (k : list nat) : slot := mkslot0 (s_gid s) (s_adv s) (s_shx s) (s_shy s) (s_par s) k (s_atx s) (s_aty s) (s_wx s) (s_wy s) (s_user s).
 
 Inductive act :=
 | APutGlyph (g : N)                                   (* put_glyph: the glyph becomes g, the advance that of g *)
@@ -29,11 +34,14 @@ Inductive act :=
 | ASetShiftY (v : Z)                                  (* attr_set shift.y *)
 | AAttach (ref : Z)                                   (* attr_set_slot att_to: attach this item to item (this + ref) — positioning passes *)
 | AAttPt (x y : Z)                                    (* attr_set att_x / att_y *)
-| AWithPt (x y : Z).                                  (* attr_set with_x / with_y *)
+| AWithPt (x y : Z)                                   (* attr_set with_x / with_y *)
+| APutCopy (ref : Z)                                  (* put_copy: this item becomes a copy of item (this + ref) as it was when the rule fired *)
+| ASetUser (k : nat) (v : Z).                         (* iattr_set user attribute k *)
 
 (* an optional rule constraint: the advance of window item [c_item] compared with a constant (cntxt_item + push_slot_attr) *)
 Inductive cmp := CLt | CGt | CEq.
-Record con := mkcon { c_item : nat; c_cmp : cmp; c_val : Z }.
+Record con := mkcon0 { c_item : nat; c_cmp : cmp; c_val : Z; c_user : option nat }.     (* c_user = Some k: the test is on user attribute k instead of the advance *)
+Definition mkcon (i : nat) (c : cmp) (v : Z) : con := mkcon0 i c v None.
 Record rule := mkrule0 { r_pre : nat; r_pat : list (list N); r_acts : list (list act); r_con : option con; r_ret : Z }.
 (* r_ret: the value the action returns: the cursor moves that many slots from the end of the window (0 = stay there) *)
 Definition mkrule (pre : nat) (pat : list (list N)) (acts : list (list act)) (c : option con) : rule := mkrule0 pre pat acts c 0.
@@ -59,7 +67,8 @@ Section Pass.
     | None => true
     | Some k => match nth_error window (c_item k) with
                 | None => true                                    (* an item outside the rule: the test is never reached *)
-                | Some s => match c_cmp k with CLt => (s_adv s <? c_val k)%Z | CGt => (c_val k <? s_adv s)%Z | CEq => (s_adv s =? c_val k)%Z end
+                | Some s => let x := match c_user k with Some u => nth u (s_user s) 0%Z | None => s_adv s end in
+                            match c_cmp k with CLt => (x <? c_val k)%Z | CGt => (c_val k <? x)%Z | CEq => (x =? c_val k)%Z end
                 end
     end.
   Definition rule_matches (r : rule) (l : list slot) (i : nat) : bool :=
@@ -80,50 +89,30 @@ Section Pass.
         select rest l i (S k) best'
     end.
 
-  (* one item of the window: [orig] is the window as it was when the rule fired (every read goes there) *)
-  Fixpoint apply_acts (orig : list slot) (j : nat) (acts : list act) (cur : slot) (ins : list slot) (deleted : bool) : list slot * slot * bool :=
+  (* ---- what a reference inside an action reads.  The loader inserts a TEMP_COPY at the start of an item's code when the item is both
+     changed by a put operation (put_glyph, put_subs, put_copy from elsewhere; also the put_glyph of a slot inserted in front of the
+     NEXT item, an artefact of the loader's bookkeeping) and referenced from its own or a later item: such an item is read as it was
+     when the rule fired.  Every other item is read live: with the attribute changes its own actions have already made. *)
+  Fixpoint has_put (acts : list act) : bool :=
+    match acts with [] => false | APutGlyph _ :: _ => true | APutSubs _ _ _ :: _ => true | APutCopy ref :: r => negb (ref =? 0)%Z || has_put r | _ :: r => has_put r end.
+  Fixpoint has_ins (acts : list act) : bool := match acts with [] => false | AInsert _ :: _ => true | _ :: r => has_ins r end.
+  Fixpoint refs_of (acts : list act) : list Z :=
+    match acts with [] => [] | APutSubs ref _ _ :: r => ref :: refs_of r | APutCopy ref :: r => ref :: refs_of r | _ :: r => refs_of r end.
+  Fixpoint refd_from (acts : list (list act)) (j : nat) (q : nat) : bool :=      (* some item j, j+1, ... refers to window item q *)
     match acts with
-    | [] => (ins, cur, deleted)
-    | a :: rest =>
-        match a with
-        | APutGlyph g => apply_acts orig j rest (set_gid_adv cur g (adv g)) ins deleted
-        | APutSubs ref incls outcls =>
-            let k := (Z.of_nat j + ref)%Z in
-            let src := if (k <? 0)%Z then None else nth_error orig (Z.to_nat k) in
-            match src with
-            | None => apply_acts orig j rest cur ins deleted                       (* slotat() yields no slot: nothing happens *)
-            | Some s =>
-                let g := match index_of (s_gid s) incls 0 with Some ix => nth ix outcls 0 | None => 0 end in
-                apply_acts orig j rest (set_gid_adv cur g (adv g)) ins deleted
-            end
-        | ADelete => apply_acts orig j rest cur ins true
-        | AInsert g => apply_acts orig j rest cur (ins ++ [mkslot g (adv g) 0]) deleted
-        | ASetAdv v => apply_acts orig j rest (set_adv cur v) ins deleted
-        | ASetShift v => apply_acts orig j rest (set_shx cur v) ins deleted
-        | ASetShiftY v => apply_acts orig j rest (set_shy cur v) ins deleted
-        | AAttPt x y => apply_acts orig j rest (set_att cur x y) ins deleted
-        | AWithPt x y => apply_acts orig j rest (set_with cur x y) ins deleted
-        | AAttach _ => apply_acts orig j rest cur ins deleted                       (* attachment is the business of positioning passes: see fire_pos *)
-        end
+    | [] => false
+    | al :: rest => existsb (fun ref => (Z.of_nat j + ref =? Z.of_nat q)%Z) (refs_of al) || refd_from rest (S j) q
     end.
-
-  (* the items of the window from index j on; items without an action list pass through *)
-  Fixpoint apply_items (orig : list slot) (j : nat) (items : list slot) (acts : list (list act)) : list slot :=
-    match items with
-    | [] => []
-    | s :: ir =>
-        let al := match acts with a :: _ => a | [] => [] end in
-        let '(ins, s', del) := apply_acts orig j al s [] false in
-        ins ++ (if del then [] else [s']) ++ apply_items orig (S j) ir (match acts with _ :: ar => ar | [] => [] end)
-    end.
-
-  (* fire rule r with the cursor at i: the stream afterwards and the new cursor (just after the rewritten window) *)
-  Definition fire (r : rule) (l : list slot) (i : nat) : list slot * nat :=
-    let st := (i - r_pre r)%nat in
-    let window := firstn (r_sort r) (skipn st l) in
-    let pre := firstn (r_pre r) window in
-    let body := apply_items window (r_pre r) (skipn (r_pre r) window) (r_acts r) in
-    (firstn st l ++ pre ++ body ++ skipn (st + r_sort r) l, (st + r_pre r + length body)%nat).
+  Definition tempc (r : rule) (q : nat) : bool :=
+    if Nat.ltb q (r_pre r) then false else
+    let qi := (q - r_pre r)%nat in
+    (has_put (nth qi (r_acts r) []) || has_ins (nth (S qi) (r_acts r) [])) && refd_from (skipn qi (r_acts r)) q q.
+  Definition read_src (r : rule) (orig : list slot) (live : nat -> option slot) (j : nat) (ref : Z) : option slot :=
+    let q := (Z.of_nat j + ref)%Z in
+    if (q <? 0)%Z then None else
+    let qn := Z.to_nat q in
+    if negb (Nat.ltb qn (r_sort r)) then None
+    else if tempc r qn then nth_error orig qn else live qn.
 
   (* ---- positioning passes: the stream keeps its length; actions update slots in place and may attach them *)
   Fixpoint upd (l : list slot) (k : nat) (f : slot -> slot) : list slot :=
@@ -165,7 +154,7 @@ Section Pass.
     | _, _ => l
     end.
 
-  Fixpoint apply_acts_pos (orig : list slot) (st j : nat) (acts : list act) (l : list slot) : list slot :=
+  Fixpoint apply_acts_pos (r : rule) (orig : list slot) (st j : nat) (acts : list act) (l : list slot) : list slot :=
     match acts with
     | [] => l
     | a :: rest =>
@@ -173,8 +162,7 @@ Section Pass.
         let l' := match a with
                   | APutGlyph g => upd l k (fun s => set_gid_adv s g (adv g))
                   | APutSubs ref incls outcls =>
-                      let q := (Z.of_nat j + ref)%Z in
-                      match (if (q <? 0)%Z then None else nth_error orig (Z.to_nat q)) with
+                      match read_src r orig (fun q => nth_error l (st + q)) j ref with
                       | None => l
                       | Some s0 => let g := match index_of (s_gid s0) incls 0 with Some ix => nth ix outcls 0 | None => 0 end in
                                    upd l k (fun s => set_gid_adv s g (adv g))
@@ -185,42 +173,26 @@ Section Pass.
                   | AAttPt x y => upd l k (fun s => set_att s x y)
                   | AWithPt x y => upd l k (fun s => set_with s x y)
                   | AAttach ref => let q := (Z.of_nat k + ref)%Z in if (q <? 0)%Z then l else attach l k (Z.to_nat q)
+                  | ASetUser u v => upd l k (fun s => set_user s u v)
+                  | APutCopy ref =>
+                      match read_src r orig (fun q => nth_error l (st + q)) j ref with
+                      | Some s0 => if (ref =? 0)%Z then l else upd l k (fun s => copy_of s0 s)
+                      | None => l
+                      end
                   | ADelete | AInsert _ => l                                                 (* the loader refuses them in positioning passes *)
                   end in
-        apply_acts_pos orig st j rest l'
+        apply_acts_pos r orig st j rest l'
     end.
-  Fixpoint apply_items_pos (orig : list slot) (st j : nat) (n : nat) (acts : list (list act)) (l : list slot) : list slot :=
+  Fixpoint apply_items_pos (r : rule) (orig : list slot) (st j : nat) (n : nat) (acts : list (list act)) (l : list slot) : list slot :=
     match n with
     | O => l
     | S n' => let al := match acts with a :: _ => a | [] => [] end in
-              apply_items_pos orig st (S j) n' (match acts with _ :: ar => ar | [] => [] end) (apply_acts_pos orig st j al l)
+              apply_items_pos r orig st (S j) n' (match acts with _ :: ar => ar | [] => [] end) (apply_acts_pos r orig st j al l)
     end.
   Definition fire_pos (r : rule) (l : list slot) (i : nat) : list slot * nat :=
     let st := (i - r_pre r)%nat in
     let window := firstn (r_sort r) (skipn st l) in
-    (apply_items_pos window st (r_pre r) (r_sort r - r_pre r) (r_acts r) l, (st + r_sort r)%nat).
-
-  (* the pass: scan left to right; [fuel] bounds the number of steps *)
-  Fixpoint run_pass (positioning : bool) (fuel : nat) (rules : list rule) (l : list slot) (i : nat) : list slot :=
-    match fuel with
-    | O => l
-    | S f =>
-        if Nat.leb (length l) i then l
-        else match select rules l i 0 None with
-             | Some (_, r) => let '(l', i') := if positioning then fire_pos r l i else fire r l i in run_pass positioning f rules l' i'
-             | None => run_pass positioning f rules l (S i)
-             end
-    end.
-
-  Definition pass_fuel (l : list slot) : nat := S (length l).
-
-  (* passes in font order; the first [nsubst] are substitution passes, the rest positioning passes *)
-  Fixpoint run_passes_from (k nsubst : nat) (passes : list (list rule)) (l : list slot) : list slot :=
-    match passes with
-    | [] => l
-    | p :: rest => run_passes_from (S k) nsubst rest (run_pass (Nat.leb nsubst k) (pass_fuel l) p l 0)
-    end.
-  Definition run_passes (nsubst : nat) (passes : list (list rule)) (l : list slot) : list slot := run_passes_from 0 nsubst passes l.
+    (apply_items_pos r window st (r_pre r) (r_sort r - r_pre r) (r_acts r) l, (st + r_sort r)%nat).
 
   (* ---- the rule loop of Pass::runGraphite in full: cursor adjustment (r_ret), the high-water mark, highpassed, the loop counter.
      Slots are addressed by their index in the stream; None is the null pointer. *)
@@ -254,15 +226,14 @@ Section Pass.
     | _ :: rest => do_inserts rest l pos hw hp
     end.
   Fixpoint has_delete (acts : list act) : bool := match acts with [] => false | ADelete :: _ => true | _ :: r => has_delete r end.
-  Fixpoint own_acts (orig : list slot) (j : nat) (acts : list act) (cur : slot) : slot :=
+  Fixpoint own_acts (rd : slot -> Z -> option slot) (acts : list act) (cur : slot) : slot :=
     match acts with
     | [] => cur
     | a :: rest =>
         let cur' := match a with
                     | APutGlyph g => set_gid_adv cur g (adv g)
                     | APutSubs ref incls outcls =>
-                        let q := (Z.of_nat j + ref)%Z in
-                        match (if (q <? 0)%Z then None else nth_error orig (Z.to_nat q)) with
+                        match rd cur ref with
                         | None => cur
                         | Some s0 => let g := match index_of (s_gid s0) incls 0 with Some ix => nth ix outcls 0 | None => 0 end in set_gid_adv cur g (adv g)
                         end
@@ -271,37 +242,74 @@ Section Pass.
                     | ASetShiftY v => set_shy cur v
                     | AAttPt x y => set_att cur x y
                     | AWithPt x y => set_with cur x y
+                    | ASetUser u v => set_user cur u v
+                    | APutCopy ref => match rd cur ref with Some s0 => if (ref =? 0)%Z then cur else copy_of s0 cur | None => cur end
                     | _ => cur
                     end in
-        own_acts orig j rest cur'
+        own_acts rd rest cur'
     end.
-  Definition do_item (orig : list slot) (j : nat) (acts : list act) (l : list slot) (pos : nat) (hw : option nat) (hp : bool) : list slot * nat * option nat * bool :=
+  Definition do_item (r : rule) (orig done : list slot) (j : nat) (acts : list act) (l : list slot) (pos : nat) (hw : option nat) (hp : bool)
+    : list slot * nat * option nat * bool * list slot :=
     let '(l1, pos1, hw1, hp1) := do_inserts acts l pos hw hp in
-    let l2 := upd l1 pos1 (fun s => own_acts orig j acts s) in
+    let cur0 := match nth_error l1 pos1 with Some s => s | None => mkslot 0 0 0 end in
+    let live := fun (c : slot) (q : nat) => if Nat.ltb q j then nth_error done q else if Nat.eqb q j then Some c else nth_error orig q in
+    let cur1 := own_acts (fun c ref => read_src r orig (live c) j ref) acts cur0 in
+    let l2 := upd l1 pos1 (fun _ => cur1) in
+    let done' := done ++ [cur1] in
     if has_delete acts then
       (* DELETE: if (is == highwater) highwater = is->next; unlink; is = is->prev (if any).  NEXT: if (is == highwater) highpassed = true; is = is->next *)
       let hw2 := if oeq hw1 pos1 then (if Nat.ltb (S pos1) (length l2) then Some (S pos1) else None) else hw1 in
       let l3 := remove_at l2 pos1 in
       let hw3 := match hw2 with Some h => if Nat.ltb pos1 h then Some (h - 1)%nat else Some h | None => None end in
       let hp3 := match prv pos1 with Some p => if oeq hw3 p then true else hp1 | None => hp1 end in
-      (l3, pos1, hw3, hp3)
+      (l3, pos1, hw3, hp3, done')
     else
-      (l2, S pos1, hw1, if oeq hw1 pos1 then true else hp1).
-  Fixpoint do_items (orig : list slot) (j n : nat) (acts : list (list act)) (l : list slot) (pos : nat) (hw : option nat) (hp : bool) : list slot * nat * option nat * bool :=
+      (l2, S pos1, hw1, (if oeq hw1 pos1 then true else hp1), done').
+  Fixpoint do_items (r : rule) (orig done : list slot) (j n : nat) (acts : list (list act)) (l : list slot) (pos : nat) (hw : option nat) (hp : bool)
+    : list slot * nat * option nat * bool :=
     match n with
     | O => (l, pos, hw, hp)
     | S n' => let al := match acts with a :: _ => a | [] => [] end in
-              let '(l1, pos1, hw1, hp1) := do_item orig j al l pos hw hp in
-              do_items orig (S j) n' (match acts with _ :: ar => ar | [] => [] end) l1 pos1 hw1 hp1
+              let '(l1, pos1, hw1, hp1, done1) := do_item r orig done j al l pos hw hp in
+              do_items r orig done1 (S j) n' (match acts with _ :: ar => ar | [] => [] end) l1 pos1 hw1 hp1
     end.
   (* a positioning item: actions in place (attachment included), then NEXT *)
-  Fixpoint do_items_pos (orig : list slot) (st j n : nat) (acts : list (list act)) (l : list slot) (hw : option nat) (hp : bool) : list slot * option nat * bool :=
+  Fixpoint do_items_pos (r : rule) (orig : list slot) (st j n : nat) (acts : list (list act)) (l : list slot) (hw : option nat) (hp : bool) : list slot * option nat * bool :=
     match n with
     | O => (l, hw, hp)
     | S n' => let al := match acts with a :: _ => a | [] => [] end in
-              let l1 := apply_acts_pos orig st j al l in
-              do_items_pos orig st (S j) n' (match acts with _ :: ar => ar | [] => [] end) l1 hw (if oeq hw (st + j) then true else hp)
+              let l1 := apply_acts_pos r orig st j al l in
+              do_items_pos r orig st (S j) n' (match acts with _ :: ar => ar | [] => [] end) l1 hw (if oeq hw (st + j) then true else hp)
     end.
+
+  (* firing a substitution rule with the cursor at i: the stream afterwards and the new cursor (just after the rewritten window) *)
+  Definition fire (r : rule) (l : list slot) (i : nat) : list slot * nat :=
+    let stw := (i - r_pre r)%nat in
+    let window := firstn (r_sort r) (skipn stw l) in
+    let '(l', pos', _, _) := do_items r window (firstn (r_pre r) window) (r_pre r) (r_sort r - r_pre r) (r_acts r) l i None false in
+    (l', pos').
+
+  (* the pass: scan left to right; [fuel] bounds the number of steps *)
+  Fixpoint run_pass (positioning : bool) (fuel : nat) (rules : list rule) (l : list slot) (i : nat) : list slot :=
+    match fuel with
+    | O => l
+    | S f =>
+        if Nat.leb (length l) i then l
+        else match select rules l i 0 None with
+             | Some (_, r) => let '(l', i') := if positioning then fire_pos r l i else fire r l i in run_pass positioning f rules l' i'
+             | None => run_pass positioning f rules l (S i)
+             end
+    end.
+
+  Definition pass_fuel (l : list slot) : nat := S (length l).
+
+  (* passes in font order; the first [nsubst] are substitution passes, the rest positioning passes *)
+  Fixpoint run_passes_from (k nsubst : nat) (passes : list (list rule)) (l : list slot) : list slot :=
+    match passes with
+    | [] => l
+    | p :: rest => run_passes_from (S k) nsubst rest (run_pass (Nat.leb nsubst k) (pass_fuel l) p l 0)
+    end.
+  Definition run_passes (nsubst : nat) (passes : list (list rule)) (l : list slot) : list slot := run_passes_from 0 nsubst passes l.
 
   (* Pass::adjustSlot *)
   Fixpoint back (n : nat) (s : option nat) (hw : option nat) (hp : bool) : option nat * bool :=
@@ -347,11 +355,11 @@ Section Pass.
               let window := firstn (r_sort r) (skipn stw l) in
               let n := (r_sort r - r_pre r)%nat in
               if positioning then
-                let '(l', hw', hp') := do_items_pos window stw (r_pre r) n (r_acts r) l (ls_hw st) false in
+                let '(l', hw', hp') := do_items_pos r window stw (r_pre r) n (r_acts r) l (ls_hw st) false in
                 let out := if Nat.ltb (stw + r_sort r) (length l') then Some (stw + r_sort r)%nat else None in
                 let '(s', hp'') := adjust l' (r_ret r) out hw' hp' in (l', s', hw', hp'')
               else
-                let '(l', pos', hw', hp') := do_items window (r_pre r) n (r_acts r) l i (ls_hw st) false in
+                let '(l', pos', hw', hp') := do_items r window (firstn (r_pre r) window) (r_pre r) n (r_acts r) l i (ls_hw st) false in
                 let out := if Nat.ltb pos' (length l') then Some pos' else None in
                 let '(s', hp'') := adjust l' (r_ret r) out hw' hp' in (l', s', hw', hp'')
           end in
